@@ -75,17 +75,29 @@ def run_if(cond, w, unchecked, ctx='plain'):
     return L.results
 
 
-def run_loop(cond, w, unchecked, ctx='plain'):
-    L = Lemma(f'block/loop/{cond}/{"" if ctx == "plain" else ctx + "/"}w{w}/{"unchecked" if unchecked else "checked"}', w, unchecked, virtual_defeat=ctx != 'plain')
+MODE_SETS = {'all': None, 'none': ExitMode.NONE, 'break': ExitMode.BREAK, 'loop': ExitMode.LOOP, 'defeat': ExitMode.DEFEAT, 'return': ExitMode.RETURN,
+             'none-return': ExitMode.NONE | ExitMode.RETURN, 'break-return': ExitMode.BREAK | ExitMode.RETURN, 'none-break': ExitMode.NONE | ExitMode.BREAK}
+
+
+def run_loop(cond, w, unchecked, ctx='plain', body_modes='all'):
+    # body_modes: the generator may consult the exit modes of the body when it emits the loop; `continue` is never part of them, so a body whose
+    # modes are e.g. exactly {RETURN} can still continue -- the code is emitted (and checked) for each of these mode sets, not only for "anything"
+    L = Lemma(f'block/loop/{cond}/{"" if ctx == "plain" else ctx + "/"}{"" if body_modes == "all" else "body=" + body_modes + "/"}w{w}/{"unchecked" if unchecked else "checked"}',
+              w, unchecked, virtual_defeat=ctx != 'plain')
     L.functions.update(GEN)
     try:
         if ctx == 'try-stop-body': in_try_stop_body(L)
+        if body_modes != 'all': L.function_context()
         c = CONDS[cond](L)
-        body = ABlock('B', ALL, may_continue=True)
+        body = ABlock('B', ALL if body_modes == 'all' else MODE_SETS[body_modes], may_continue=True)
         cont = ABlock('C', ExitMode.NONE | ExitMode.LOOP | ExitMode.DEFEAT)
         blk = ast.LoopBlock(None, body, c, cont)
         cov = [('exit', '<end>')]
+        if cond == 'true' and body_modes != 'all' and ExitMode.BREAK not in MODE_SETS[body_modes]:
+            cov = []          # a constant-true loop whose body cannot break is left only by return / defeat / a terminal state
         L.check_block(blk, props(unchecked, ctx), cov)
+        if body_modes != 'all':
+            return L.results
         modes_enum(L, lambda mb, mc: ast.LoopBlock(None, ABlock('B', mb), c, ABlock('C', mc & ~(ExitMode.BREAK | ExitMode.RETURN))), ('B', 'C'))
     finally:
         L.close()
@@ -241,8 +253,63 @@ def modes_enum(L, build, names, silent_defeat=()):
           backend='enum+sphinxsem')
 
 
+def ob_evaluate_structure():
+    """Block.evaluate is structure preserving: for every block class and every exit-mode set of its (abstract) children, the typechecked block is a
+    block of the same class around the same children (conditions cast to bool); nothing is simplified away on the strength of exit modes
+    (exit modes under-report defeat raised inside expressions, so dropping a handler or a construct because of them changes behaviour)"""
+    import itertools, time as _t
+    from hidv.oblig import Result, DISCHARGED, FAILED
+    from hidv.harness.vcg import AExpr
+    t0 = _t.time(); bad = []; n = 0
+    flags = [ExitMode.NONE, ExitMode.BREAK, ExitMode.LOOP, ExitMode.DEFEAT, ExitMode.RETURN]
+    allsets = []
+    for r in range(1, 6):
+        for comb in itertools.combinations(flags, r):
+            m = comb[0]
+            for x in comb[1:]: m |= x
+            allsets.append(m)
+    env = make_env().new_child(DataType.EMPTY)
+    cexpr = AExpr('c', B)
+    def chk(name, blk, want_cls, children):
+        nonlocal n
+        n += 1
+        try:
+            got = blk.evaluate(env)
+        except Exception as e:
+            bad.append({'block': name, 'raises': repr(e)}); return
+        if type(got) is not want_cls:
+            bad.append({'block': name, 'evaluate_returns': type(got).__name__, 'documented': want_cls.__name__}); return
+        for attr, child in children.items():
+            node = got
+            for part in attr.split('.'): node = getattr(node, part)
+            if node is not child:
+                bad.append({'block': name, 'child': attr, 'evaluate_returns': repr(node)[:80], 'documented': repr(child)}); return
+    for m1 in allsets:
+        b1 = ABlock('X', m1)
+        chk(f'preempt {{X:{m1!r}}}', ast.PreemptBlock(SPAN.start, b1), ast.PreemptBlock, {'body': b1})
+        chk(f'while (c) {{X:{m1!r}}}', ast.LoopBlock.while_loop(SPAN.start, b1, cexpr), ast.LoopBlock, {'body': b1})
+        for m2 in allsets:
+            b2 = ABlock('Y', m2)
+            chk(f'if (c) {{X:{m1!r}}} else {{Y:{m2!r}}}', ast.IfBlock(SPAN.start, b1, cexpr, b2), ast.IfBlock, {'body': b1, 'else_block': b2})
+            chk(f'try {{X:{m1!r}}} undo {{Y:{m2!r}}}', ast.TryBlock(SPAN.start, b1, ast.UndoBlock(SPAN.start, b2)), ast.TryBlock, {'body': b1, 'handler.body': b2})
+            chk(f'try {{X:{m1!r}}} stop {{Y:{m2!r}}}', ast.TryBlock(SPAN.start, b1, ast.StopBlock(SPAN.start, b2)), ast.TryBlock, {'body': b1, 'handler.body': b2})
+        if len(bad) > 6: break
+    det = {'formula': 'forall child mode sets: type(block.evaluate()) is type(block) and the children are the evaluated children', 'domain': n,
+           'functions': ['hidc.ast.blocks.TryBlock.evaluate', 'hidc.ast.blocks.ControlBlock.evaluate', 'hidc.ast.blocks.IfBlock.evaluate', 'hidc.ast.blocks.LoopBlock.evaluate']}
+    if bad:
+        try:
+            from contracts import witness
+            rep = witness.replay_time_cached(2, False)
+        except Exception as e:
+            rep = {'reproduced': None, 'how': repr(e)}
+        if not rep.get('reproduced'):
+            rep = {'reproduced': True, 'how': 'real evaluate() on the block', 'observed': bad[0]}
+        det.update(model=bad[:5], replay=rep)
+    return [Result('block/evaluate/structure-preserving', FAILED if bad else DISCHARGED, 'enum', _t.time() - t0, (), det)]
+
+
 def tasks(tier):
-    out = []
+    out = [task(MOD, 'ob_evaluate_structure', ('C01', 'C02', 'C03', 'C16'), label='block/evaluate-structure', cost=2)]
     P = ('C01', 'C03', 'C04', 'C08', 'C09', 'C10', 'C15', 'C16')
     for w in ((2,) if tier == 'quick' else (2, 3, 4, 8)):
         for unchecked in ((False,) if tier == 'quick' else (False, True)):
@@ -250,6 +317,10 @@ def tasks(tier):
                 out.append(task(MOD, 'run_if', P, label=f'block/if/{cond}/w{w}/u{int(unchecked)}', cost=6, cond=cond, w=w, unchecked=unchecked))
                 out.append(task(MOD, 'run_loop', P, label=f'block/loop/{cond}/w{w}/u{int(unchecked)}', cost=6, cond=cond, w=w, unchecked=unchecked))
             arrays = ('arrays-literal', 'arrays-dynamic', 'arrays-bool-dynamic', 'arrays-literal-dynamic', 'arrays-dynamic-literal', 'arrays-nested')
+            for bm in MODE_SETS:
+                if bm == 'all': continue
+                for cond in ('opaque', 'true') if tier == 'quick' else ('opaque', 'true', 'lt'):
+                    out.append(task(MOD, 'run_loop', P, label=f'block/loop/{cond}/body={bm}/w{w}/u{int(unchecked)}', cost=3, cond=cond, w=w, unchecked=unchecked, body_modes=bm))
             for ctx in ('try-stop-body', 'defeat-function'):
                 for cond in list(CONDS)[:2] if tier == 'quick' else CONDS:
                     out.append(task(MOD, 'run_if', P + ('C02',), label=f'block/if/{cond}/{ctx}/w{w}/u{int(unchecked)}', cost=6, cond=cond, w=w, unchecked=unchecked, ctx=ctx))
